@@ -583,6 +583,30 @@ def run(rep, tier):
             rep.ok('R04.13', what, 'accepted difference: ' + ACCEPTED_FAST[(side, key[0], key[1])])
             continue
         rep.fail('R04.13', what, fsite.get(key, 'src/uscxml/transform/ChartToC.cpp'), '%s occurs %d time(s) in FastMicroStep::step and %d time(s) in the emitted C step function: the two are the same algorithm written twice, one of them was changed alone' % (what, fcnt, ccnt))
+    # ---- R04.20 element kinds in prefixed documents (C05 R05.10, hosted here for the exec-content writer of the C back-end)
+    from ..report import Renamed
+    from . import C05
+    C05.audit_rules(Renamed(rep, {'R05.10': 'R04.20'}), fb)
+    # ---- R04.19 chart text written between quotes into the emitted tables is escaped
+    rep.rule('R04.19', 'the callbacks get the text the interpreter evaluates: every piece of chart text that ChartToC writes between double quotes into the emitted tables (`"\\"" + X + "\\""`) passes through escape(), so that a backslash or a quote in an expression reaches the callback unchanged (and the file compiles)')
+    nq = 0
+    for f_ in fb.funcs.values():
+        if not f_.q.startswith('uscxml::ChartToC::'):
+            continue
+        for n_ in f_.walk():
+            if n_['k'] != 'CXXOperatorCallExpr' or n_.get('op') != '+' or len(n_.get('c', [])) < 3:
+                continue
+            l_, r_ = strip(n_['c'][1]), strip(n_['c'][2])
+            if l_ is None or r_ is None or l_['k'] != 'StringLiteral' or l_.get('str') != '"':
+                continue
+            nq += 1
+            x_ = r_
+            while x_ is not None and x_['k'] in ('CXXConstructExpr', 'CXXBindTemporaryExpr', 'MaterializeTemporaryExpr', 'CXXFunctionalCastExpr') and x_.get('c'):
+                x_ = strip(x_['c'][0])
+            esc_ = x_ is not None and x_['k'] == 'CallExpr' and x_.get('callee', {}).get('q') == 'uscxml::escape'
+            rep.check(esc_, 'R04.19', '%s|%s' % (f_.q.split('::')[-1], ' '.join(fb.text(r_).split())[:40]), locstr(n_), 'the quoted operand `%s` %s' % (
+                ' '.join(fb.text(r_).split())[:60], 'is escaped' if esc_ else 'is written WITHOUT escape(): <content expr="\'a\\\\b\'"/> reaches the callback as \'a\\b\' (a backspace in Lua), an expr with a double quote does not compile'))
+    rep.minimum('R04.19', nq, 30, 'quoted chart texts in the emitted tables')
     # ---- R04.18 in the parallel-completion check a final state stands for its parent only
     rep.rule('R04.18', 'done.state of a parallel is raised when every region is in a final state of ITS OWN: in the emitted check an active final state clears its parent from the set of unfinished states, not all of its ancestors (a final nested below a region\'s child must not finish the region)')
     wide = [k_ for k_ in Cc if k_[0] in ('AND_NOT', 'XOR') and len(k_[1]) == 2 and k_[1][0] == 'tmp_states' and k_[1][1].endswith('.ancestors')]
